@@ -1,3 +1,5 @@
+//go:build drv_static || drv_all
+
 package main
 
 import (
